@@ -202,6 +202,25 @@ func commentSkeletons(a, b int) []string {
 	}
 }
 
+// wideSkeletons: programs whose lists, strings, commands and comments are far wider than any line
+// width a formatter might wrap at (about 130 columns), one free byte each. Everything else in the
+// formatter family is short text; a seeded change that wrapped lists wider than 80 columns (and
+// broke them) lived entirely outside those bounds (DESIGN.md 9.5).
+func wideSkeletons() []string {
+	w := func(c string) string { return strings.Repeat(c, 24) }
+	list := "\"" + w("a") + "\", \"" + w("b") + "\", " + "dep" + ", \"" + w("c") + "\", \"" + w("d") + "\""
+	return []string{
+		"task t(" + list + ", \"e" + h(1) + "\") {\n\tls\n}\n",
+		"task t(" + list + ", f" + h(1) + ") {\n\tls\n}\n",
+		"task t() -> (" + list + ", \"e" + h(1) + "\") {\n\tls\n}\n",
+		"task t(\"x\") -> (" + list + ", OUT" + h(1) + ") {}\n",
+		"A := \"" + w("a") + w("b") + w("c") + w("d") + w("e") + h(1) + "\"\n",
+		"A := join(" + "\"" + w("a") + "\", \"" + w("b") + "\", \"" + w("c") + "\", \"" + w("d") + "\", \"e" + h(1) + "\")\n",
+		"task t() {\n\tgo build " + w("a") + " " + w("b") + " " + w("c") + " " + w("d") + " " + w("e") + h(1) + "\n}\n",
+		"# " + w("a") + " " + w("b") + " " + w("c") + " " + w("d") + " " + w("e") + h(1) + "\ntask t() {}\n",
+	}
+}
+
 var lexerGetLine = "(*" + modulePath + "/lexer.Lexer).getLine"
 var parserGetLine = "(*" + modulePath + "/parser.Parser).getLine"
 
@@ -223,9 +242,9 @@ func fmtFamily(id, fn, explanation string, extraQuick, extraThorough func() []st
 		Explanation: explanation,
 		Bounds: func(tier string) string {
 			if tier == "thorough" {
-				return "F(N<=6) + NB(3) over 8 base programs + identifier holes of 5 bytes + two-hole comment skeletons (3,3)"
+				return "F(N<=6) + NB(3) over 8 base programs + identifier holes of 5 bytes + two-hole comment skeletons (3,3) + 8 wide programs (lists, strings, commands, comments of about 130 columns) with one free byte"
 			}
-			return "F(N<=4) + NB(1) over 4 base programs + identifier holes of 5 bytes (2 skeletons) + two-hole comment skeletons (1,1)"
+			return "F(N<=4) + NB(1) over 4 base programs + identifier holes of 5 bytes (2 skeletons) + two-hole comment skeletons (1,1) + 8 wide programs (lists, strings, commands, comments of about 130 columns) with one free byte"
 		},
 		Outside:      append(append([]string{}, lexOutside...), "inputs that do not parse end when the lexer/parser starts building its error (they are outside the property's quantifier)"),
 		Assumptions:  lexAssumptions,
@@ -242,6 +261,7 @@ func fmtFamily(id, fn, explanation string, extraQuick, extraThorough func() []st
 				skels = append(skels, nbSkeletons(basePrograms, 3, "io")...)
 				skels = append(skels, identSkeletons(5)...)
 				skels = append(skels, commentSkeletons(3, 3)...)
+				skels = append(skels, wideSkeletons()...)
 				if extraThorough != nil {
 					skels = append(skels, extraThorough()...)
 				}
@@ -252,6 +272,7 @@ func fmtFamily(id, fn, explanation string, extraQuick, extraThorough func() []st
 				skels = append(skels, nbSkeletons(basePrograms[:4], 1, "io")...)
 				skels = append(skels, identSkeletons(5)[:2]...)
 				skels = append(skels, commentSkeletons(1, 1)...)
+				skels = append(skels, wideSkeletons()...)
 				if extraQuick != nil {
 					skels = append(skels, extraQuick()...)
 				}
@@ -360,7 +381,7 @@ func init() {
 			"the parsed tree must have exactly the written names, strings, commands in order (byte-string equalities decided by the solver).",
 		Bounds: func(tier string) string {
 			if tier == "thorough" {
-				return fmt.Sprintf("%d shapes (up to 4 statements, 3 dependencies/outputs/arguments, 3 commands) x content holes of 1..3 bytes x gap length 0..2 x LF/CRLF x ASCII/non-ASCII suffix", len(c06Shapes)+len(c06ShapesThorough))
+				return fmt.Sprintf("%d shapes (up to 4 statements, 3 dependencies/outputs/arguments, 3 commands) x content holes of 1 byte x gap length 0..2 x LF/CRLF, and x non-ASCII suffix at gap 1; content holes of 2 bytes on the 19 one-statement shapes (all gaps) and 4 two-statement shapes (gap 1); holes of 3 bytes on the one-statement shapes at gap 1, LF", len(c06Shapes)+len(c06ShapesThorough))
 			}
 			return fmt.Sprintf("%d shapes (up to 3 statements, 2 dependencies/outputs/arguments, 2 commands) x content holes of 1 byte (2 for a subset) x gap length 0..1 x LF/CRLF", len(c06Shapes))
 		},
@@ -373,9 +394,24 @@ func init() {
 		EndSignature: map[string]string{"crash": "C06/panic", "budget": "C06/non-termination", "deadlock": "C06/deadlock"},
 		Jobs: func(tier string, seed int64) []jobSpec {
 			if tier == "thorough" {
+				// Content holes of 2 and 3 bytes only where the number of holes keeps the job within
+				// reach: the first plan (2-byte holes on every shape) did not finish - the six
+				// jobs of shape td:s:s:2;vs alone took between 18 and 77 minutes each.
 				all := append(append([]string{}, c06Shapes...), c06ShapesThorough...)
-				out := c06Jobs(all, []int{1, 2}, []int{0, 1, 2}, []int{0, 1}, []int{0})
-				out = append(out, c06Jobs(c06Shapes, []int{3}, []int{1}, []int{0}, []int{0, 1})...)
+				var single, multi []string
+				for _, sh := range c06Shapes {
+					if strings.Contains(sh, ";") {
+						if sh != "td:s:s:2;vs" && sh != "vs;c;vs" {
+							multi = append(multi, sh)
+						}
+					} else {
+						single = append(single, sh)
+					}
+				}
+				out := c06Jobs(all, []int{1}, []int{0, 1, 2}, []int{0, 1}, []int{0})
+				out = append(out, c06Jobs(single, []int{2}, []int{0, 1, 2}, []int{0, 1}, []int{0})...)
+				out = append(out, c06Jobs(multi, []int{2}, []int{1}, []int{0, 1}, []int{0})...)
+				out = append(out, c06Jobs(single, []int{3}, []int{1}, []int{0}, []int{0, 1})...)
 				out = append(out, c06Jobs(all, []int{1}, []int{1}, []int{0, 1}, []int{1})...)
 				return out
 			}
